@@ -290,3 +290,39 @@ package transport
 //@   ensures [C06:released-once-after-the-exchange] nEx == 1 && nRel == 1
 //@   callsite releaseConn: [C06:release-with-the-exchange-outcome] nEx == 1 && arg1 == c && arg2 == gErr
 //@   callsite exchangeConn: [C06:exchange-on-the-owned-conn] arg2 == c
+
+// ---- doh_transport.go -----------------------------------------------------------------------------
+//@ func (u *DoHTransport) exchange(ctx context.Context, rawQuery string) (r *dnsmsg.Msg, err error)
+//@   trusted
+//@   requires u != nil
+//@   modifies nothing
+//@   ensures err == nil ==> r != nil && fresh(r)
+//@   ensures err != nil ==> r == nil
+//@ func copyMsg(m []byte) (b pool.Buffer)
+//@   props C20
+//@   modifies nothing
+//@   ensures len(b) == len(m) && fresh(b) && bytesEq(b, 0, m, 0, len(m)) && attr(pooled, b)
+
+// ExchangeContext: the caller's payload is only read (its ID is zeroed in a private copy that is released once),
+// the query string handed to the HTTP goroutine is ordinary garbage-collected memory - never a pooled buffer
+// that could be recycled while the request is still in flight - and a returned message carries the caller's ID.
+//@ func (u *DoHTransport) ExchangeContext(ctx context.Context, q []byte) (r *dnsmsg.Msg, err error)
+//@   props C20 C05
+//@   requires u != nil && ctx != nil && u.logger != nil
+//@   ghost nRel int = 0
+//@   oncall ReleaseBuf?: nRel = nRel + 1
+//@   modifies field(dnsmsg.Header.ID)
+//@   ensures [C05:caller-id-restored] r != nil ==> r.ID == BE16(q, 0)
+//@   ensures [C20:private-copy-released-once] nRel <= 1
+//@   callsite ReleaseBuf?: [C20:releases-its-own-copy] fresh(arg0) && attr(pooled, arg0)
+
+//@ closure DoHTransport.ExchangeContext$1
+//@   props C20
+//@   requires u != nil && u.logger != nil && resChan != nil
+//@   requires [C20:request-string-not-pooled] !attr(pooled, rawQuery)
+//@   modifies *
+//@   callsite bytesToStringUnsafe: [C20:request-string-not-pooled] !attr(pooled, arg0)
+//@ func bytesToStringUnsafe(b []byte) (s string)
+//@   trusted
+//@   modifies nothing
+//@   ensures len(s) == len(b) && sameSlice(s, b, 0, len(b))
